@@ -46,3 +46,10 @@ Proof.
     (run_to_end (cfg 1000 3) [ABoss; ABRcv; ABSnd; ADSnd; AWatch; ADoer; ADRcv] (init sc_noread)).
   split; [apply run_sound|]. vm_compute. repeat split; auto.
 Qed.
+
+(* a reachable, non-final state with the connection cut (the boss has queued its first command) *)
+Definition sc_cut : scenario := mkSc (sc_ops sc_cov) [] true false false 0%nat.
+Definition s_cut : st := run_sched (cfg 1000 0) (init sc_cut) [ABoss; ABSnd; FCut].
+Example cut_state : reach (cfg 1000 0) sc_cut s_cut /\ cut (ev s_cut) = true /\ final s_cut = false /\
+  dalive (ev s_cut) = true /\ stdin_open (ev s_cut) = true.
+Proof. split; [apply run_sched_reach; constructor | vm_compute; repeat split]. Qed.
